@@ -211,13 +211,13 @@ Fixpoint read_import_loop (fuel : nat) (r : rstate) (d : impdecl) : rres impdecl
           (if r_type r =? TString
            then match r_value r with
                 | RString t => read_import_loop f r {| id_name := t; id_version := id_version d; id_maxid := id_maxid d |}
-                | _ => (r, Panic)                         (* name = *val with val nil *)
+                | _ => read_import_loop f r d                (* null.string: ignored *)
                 end
            else read_import_loop f r d)
         else if list_eqb fnm (s "version"%string) then
           (if r_type r =? TInt
            then match r_value r with
-                | RNil => (r, Panic)                      (* IntValue on null.int dereferences nil *)
+                | RNil => read_import_loop f r d             (* null.int: ignored *)
                 | RInt iv =>
                   let z := match iv with I64 z => z | IBig z => z end in
                   let fits64 := ((-9223372036854775808 <=? z) && (z <=? 9223372036854775807))%Z in
@@ -294,7 +294,7 @@ Definition read_imports (fuel : nat) (r : rstate) : rres (list imp) :=
     if r_type r =? TSymbol then
       if r_err r then Some (r, Err) else
       match r_value r with
-      | RNil => Some (r, Panic)                             (* val.LocalSID with val nil *)
+      | RNil => None                                        (* null.symbol: not the append marker *)
       | RSymbol t =>
         if (tk_sid t =? 3)%Z then
           match r_lst r with
@@ -583,7 +583,7 @@ Definition r_op (ts_ok : list N -> res unit) (r : rstate) (o : rop) : rstate * o
                              then if fits (-2147483648) 2147483647 (show_int i)
                                   then (r, Some (73 :: dec_of_Z (show_int i))) else wrong
                              else wrong
-                 | _ => (r, None)                                  (* IntValue on null.int: *i with i nil *)
+                 | _ => (r, Some t_nil)
                  end
   | OBigInt => if negb (r_type r =? TInt) then wrong
                else (r, Some (match r_value r with RInt i => 73 :: dec_of_Z (show_int i) | _ => t_nil end))
